@@ -489,6 +489,7 @@ def check(ctx, run):
     tree_twin_counts(ctx, run, 'R12.2')
     kind_predicates(ctx, run, 'R12.2')
     dispatch.r11_1(ctx, run, rule='R12.3/R11.1', only={'functions::contains'})
+    dispatch.r11_7(ctx, run, rule='R12.3/R11.7', only={'functions::contains'})
     import boundaries
     _bf = lambda p_: p_ in ('functions::contains_jsonb', 'functions::contains_value')
     boundaries.check(ctx, run, 'R12.4', [p_ for p_ in sorted(boundaries.load_baseline() or {}) if _bf(p_)], 'containment answers false')
